@@ -917,14 +917,21 @@ impl<'a, R: Read, E: Encryption> Builder<'a, R, E> {
         {
             let crc_hasher = crc_hasher.as_mut();
             let mut line_wrapper = LineWriter::<_, U64>::new(out.by_ref(), LineBreak::Lf);
-            let mut enc = armor::Base64Encoder::new(&mut line_wrapper);
+            {
+                let mut enc = armor::Base64Encoder::new(&mut line_wrapper);
 
-            if let Some(crc_hasher) = crc_hasher {
-                let mut tee = TeeWriter::new(crc_hasher, &mut enc);
-                self.to_writer(rng, &mut tee)?;
-            } else {
-                self.to_writer(rng, &mut enc)?;
+                if let Some(crc_hasher) = crc_hasher {
+                    let mut tee = TeeWriter::new(crc_hasher, &mut enc);
+                    self.to_writer(rng, &mut tee)?;
+                } else {
+                    self.to_writer(rng, &mut enc)?;
+                }
+
+                // write out the final base64 quantum, surfacing errors of the sink
+                enc.finish()?;
             }
+            // write out the last (partial) line, surfacing errors of the sink
+            line_wrapper.finish()?;
         }
 
         // write footer
